@@ -52,6 +52,7 @@ type Gen struct {
 	NoSMove             bool
 	NoEmptyMember       bool // never use "" as a set member / zset key
 	AllowBadArgs        bool // keys with separators, empty keys (must fail cleanly)
+	NoZPop              bool // sorted sets: ZAdd / ZRem only (no positional removals)
 }
 
 var bucketPool = []string{"b1", "b2", "bk", "b", "x"}
@@ -308,7 +309,7 @@ func (g *Gen) zWrite(blindOnly bool) Op {
 		return Op{K: "ZAdd", B: b, Key: g.zKey(), F: zScores[g.R.Intn(len(zScores))], Val: []byte("z" + strconv.Itoa(g.ctr))}
 	}
 	switch {
-	case x < 70:
+	case x < 70 || g.NoZPop:
 		return Op{K: "ZRem", B: b, Key: g.zKey()}
 	case x < 80:
 		return Op{K: "ZRemRangeByRank", B: b, I: g.R.Intn(2*n+5) - n - 2, J: g.R.Intn(2*n+5) - n - 2}
